@@ -206,6 +206,7 @@ struct Options {
     bool        verbose = false;
     bool        print_plan = false;
     bool        survey = false;     // development aid: count every violation key of every property, never stop, never shrink
+    std::string minimise;           // development aid (with --replay): shrink the plan while a violation whose "property/key" contains this text persists, print it
     std::uint64_t index = 0;
     std::vector< Known > known;
     std::string self;
@@ -561,6 +562,22 @@ int replay_mode( const Harness& h, const Options& o )
         return 2;
     }
     const std::string property = o.property.empty() ? plan.property : o.property;
+    if ( !o.minimise.empty() )
+    {
+        unsigned trials = 0;
+        auto fails = [&]( const Plan& c ) {
+            Isolated r = run_isolated( h, c, false );
+            for ( const auto& v : r.violations ) if ( ( v.property + "/" + v.key ).find( o.minimise ) != std::string::npos ) return true;
+            return false;
+        };
+        if ( !fails( plan ) ) { printf( "no violation matching '%s' in this replay\n", o.minimise.c_str() ); return 0; }
+        plan = shrink( h, plan, fails, 600, 120.0, trials );
+        auto names = h.op_names();
+        fputs( plan_to_text( plan, names.empty() ? nullptr : &names ).c_str(), stdout );
+        printf( "# minimised in %u re-executions\n", trials );
+        run_isolated( h, plan, true );
+        return 0;
+    }
     printf( "replaying %s (harness %s, property %s, seed %llu, %zu ops)\n", o.replay.c_str(), plan.harness.c_str(), property.c_str(),
             (unsigned long long)plan.seed, plan.ops.size() );
     Isolated r = run_isolated( h, plan, o.verbose );
@@ -648,6 +665,7 @@ int sim_main( int argc, char** argv, const Harness& h )
         else if ( a == "--verbose" ) o.verbose = true;
         else if ( a == "--print-plan" ) o.print_plan = true;
         else if ( a == "--survey" ) o.survey = true;
+        else if ( a == "--minimise" ) o.minimise = val();
         else if ( a == "--index" ) o.index = std::strtoull( val().c_str(), nullptr, 10 );
         else if ( a == "--known" )
         {
